@@ -402,3 +402,26 @@ impl SyncAssetTransfer {
         }
     }
 }
+
+#[cfg(feature = "verif_hooks")]
+pub(crate) mod verif_access {
+    pub(crate) use super::image_serde::{bin_to_image, image_to_bin};
+    pub(crate) use super::mesh_serde::{bin_to_mesh, mesh_to_bin};
+}
+
+#[cfg(feature = "verif_hooks")]
+impl SyncAssetTransfer {
+    pub(crate) fn verif_stats(&self) -> crate::verif::AssetStats {
+        let len = |c: &MeshCache| c.read().map(|m| m.len()).unwrap_or(0);
+        crate::verif::AssetStats {
+            meshes: len(&self.meshes),
+            images: len(&self.images),
+            audios: len(&self.audios),
+            meshes_to_apply: len(&self.meshes_to_apply),
+            images_to_apply: len(&self.images_to_apply),
+            audios_to_apply: len(&self.audios_to_apply),
+            downloads_queued: self.download_pool.queued_count(),
+            downloads_active: self.download_pool.active_count(),
+        }
+    }
+}
